@@ -14,7 +14,7 @@ from .values import sig
 from .driver import make_exc
 
 ASYNC_FLAVOURS = ("agen", "aclass", "aclass_noclose", "aplain", "agenlike", "aeager", "aproxy", "areiter", "alateclose")
-SYNC_FLAVOURS = ("list", "seq", "iter", "tuple", "tuplesub", "reiter")
+SYNC_FLAVOURS = ("list", "seq", "iter", "tuple", "tuplesub", "reiter", "sgen")
 SRC_FLAVOURS = ASYNC_FLAVOURS + SYNC_FLAVOURS
 FN_FLAVOURS = ("def", "async", "partial", "obj", "objaw", "falsyobj", "eqobj", "unhashobj", "aeqobj", "gencoro")
 
@@ -35,6 +35,7 @@ class SourceBase:
         fault = spec.get("fault")
         self.fault_at = fault["at"] if fault else None
         self.fault_exc = None
+        self.transient = bool(fault and fault.get("transient"))  # the failure is a one-off: later pulls work again
         if fault:
             self.fault_exc = make_exc(fault["exc"], f"planned:{name}")
             ctx.planned[name] = self.fault_exc
@@ -78,7 +79,8 @@ class SourceBase:
     def _finish(self):
         ctx, name = self.ctx, self.name
         if self.fault_at is not None and self.pulls == self.fault_at:
-            self.failed = True
+            if not self.transient:
+                self.failed = True
             ctx.ev("fault", name)
             raise self.fault_exc
         if self.idx >= len(self.items):
@@ -116,6 +118,33 @@ class SyncSource(SourceBase):
         return True
 
     obj = property(lambda self: self)
+
+
+class SyncGenSource(SourceBase):
+    """A real synchronous generator of the caller: tools may advance it, closing it is the caller's business
+    (``closed_by_tool`` records a GeneratorExit while the double still holds a reference)."""
+
+    def __init__(self, ctx, name, items, spec=None):
+        super().__init__(ctx, name, items, spec)
+        self.closed_by_tool = False
+        self.gen = self._run()
+
+    def _run(self):
+        try:
+            while True:
+                if not self._begin():
+                    return
+                ok, item = self._finish()
+                if not ok:
+                    return
+                yield item
+        except GeneratorExit:
+            self.closed_by_tool = True
+            self.ctx.ev("close", self.name)
+            raise
+
+    released = True
+    obj = property(lambda self: self.gen)
 
 
 class SeqSource(SourceBase):
@@ -471,6 +500,7 @@ _SRC_CLASSES = {
     "tuple": TupleSource,
     "tuplesub": TupleSubSource,
     "seq": SeqSource,
+    "sgen": SyncGenSource,
     "iter": SyncSource,
 }
 
